@@ -90,8 +90,19 @@ func runC20(cfg lib.Cfg) error {
 	}
 	wg.Wait()
 	restarts := 0
+	shrunk := 0
 	for i, j := range jobs {
-		out.Add(scenCase(j.sc, results[i], j.kind))
+		c := scenCase(j.sc, results[i], j.kind)
+		out.Add(c)
+		if !c.OracleOK && shrunk < 3 {
+			// a concrete, smaller schedule for the replay
+			if small, obs, ok := shrinkScenario(j.sc); ok {
+				sc := scenCase(small, obs, "scenario-shrunk")
+				sc.Size = len(small.Ops)
+				out.Add(sc)
+			}
+			shrunk++
+		}
 		for _, r := range results[i].Restarts {
 			restarts++
 			out.Count(fmt.Sprintf("restart-result:%d", r))
